@@ -294,8 +294,14 @@ def gen_awards_case(rng, exhaustive_offsets=None):
         if kind < 0.25: details = {"FairMarketValuePrice": "$" + fm}        # fallback price keyed by the parent date
         if kind > 0.85: details["FairMarketValuePrice"] = "$1.11"           # both present: vest-specific wins
         parent = vd if "VestDate" not in details or rng.random() < 0.5 else vd + datetime.timedelta(days=rng.choice([0, 1, 4]))
+        dets = [{"Details": details}]
+        r2 = rng.random()
+        if r2 < 0.2: dets.insert(0, {"Details": {"FairMarketValuePrice": "$7.77"}})        # a fallback-only detail listed first
+        elif r2 < 0.3: dets.append({"Details": {"FairMarketValuePrice": "$8.88"}})         # ... or last
+        elif r2 < 0.4: dets.append({"Details": {"VestDate": (vd - datetime.timedelta(days=rng.choice([1, 2, 9]))).strftime("%m/%d/%Y"), "VestFairMarketValue": "$55.5"}})   # two grants in one record
+        elif r2 < 0.45: dets.insert(0, {"Details": {}})
         aw.append({"Date": parent.strftime("%m/%d/%Y"), "Action": rng.choice(["Deposit", "Lapse", "Sale", "Forced Quick Sell"]),
-                   "Symbol": rng.choice([sym, sym.upper(), sym.lower()]), "TransactionDetails": [{"Details": details}]})
+                   "Symbol": rng.choice([sym, sym.upper(), sym.lower()]), "TransactionDetails": dets})
     if rng.random() < 0.3: aw.append({"Date": dep.strftime("%m/%d/%Y"), "Action": rng.choice(["Wire Transfer", "Tax Withholding", "Forced Disbursement"]), "Symbol": sym, "TransactionDetails": []})
     if rng.random() < 0.2 and aw and aw[0]["TransactionDetails"]: aw.append(dict(aw[0], TransactionDetails=[{"Details": {"VestDate": aw[0]["TransactionDetails"][0]["Details"].get("VestDate", aw[0]["Date"]), "VestFairMarketValue": "$999.99"}}]))   # duplicate key, later wins
     if rng.random() < 0.3: aw.append({"Date": (dep - datetime.timedelta(days=2)).strftime("%m/%d/%Y"), "Action": "Deposit", "Symbol": "OTHER", "TransactionDetails": [{"Details": {"VestDate": (dep - datetime.timedelta(days=2)).strftime("%m/%d/%Y"), "VestFairMarketValue": "$5"}}]})
